@@ -351,9 +351,13 @@ class Run:
         for member in [n] + list(n.bridged_nodes):
             for child in member.cleanup_nodes:
                 cw = child.params.get("nets")
-                uses_w = cw == worker.id or any(
+                # another worker's test can only fetch from the removing worker's pool if the pool scope
+                # between the two (swarm: same gateway, cluster: another gateway) is enabled for it
+                scopes = child.params.get("pool_scope", "").split()
+                between = "swarm" if child.params.get("nets_gateway") == worker.params.get("nets_gateway") else "cluster"
+                uses_w = cw == worker.id or (between in scopes and any(
                     worker.id + ":" in child.params.get(f"get_location_{o.long_suffix}", "")
-                    for o in child.objects if objid(o) in removed)
+                    for o in child.objects if objid(o) in removed))
                 if not uses_w:
                     continue
                 running = child.started_worker is not None and any(r["status"] == "UNKNOWN" for r in child.results)
@@ -494,7 +498,7 @@ class Run:
                 iv[5] = pre
                 break
 
-    def go(self, rng, outcome_of, wake_bias=0.5):
+    def go(self, rng, outcome_of, wake_bias=0.5, fixed=None):
         """drive until every worker exited / failed or the section budget is used up"""
         from avocado_i2n.plugins.runner import TestRunner
         runner = TestRunner()
@@ -515,11 +519,19 @@ class Run:
                 runnable = [i for i in alive if state[i] != "sleep"] or alive
                 # sleeping workers are woken with some probability, always when nobody else can move
                 pool = runnable + [i for i in alive if state[i] == "sleep" and rng.random() < wake_bias]
-                w = rng.choice(pool)
-                out = None
-                if state[w] == "run":
-                    node = pending[w]
-                    out = outcome_of(rng, self, w, node)
+                if fixed is not None:
+                    if len(self.sections) >= len(fixed):
+                        break
+                    w, fout = fixed[len(self.sections)]
+                    out = None if fout in ("-", None) else fout
+                    if state[w] == "done":
+                        break
+                else:
+                    w = rng.choice(pool)
+                    out = None
+                    if state[w] == "run":
+                        node = pending[w]
+                        out = outcome_of(rng, self, w, node)
                 self.sections.append((w, out if state[w] == "run" else "-"))
                 self.cur = []
                 self.t += 1
